@@ -23,5 +23,9 @@ HARNESSES = [
      'obligations': ['StoredBlockIndex<VbkBlock> and <AltBlock>: stored bytes -> decode -> mergeFrom into a fresh index -> identical stored bytes, for all header/height/status/ref-count values, 0..2 payload ids and an optional endorsement'],
      'rungs': {'quick': [{'bound': 'all 32-bit field values (symbolic), 0..2 payload ids per kind, 0..1 containing endorsement', 'timeout': 250}], 'thorough': [{'bound': 'as quick', 'timeout': 600}]}},
 ]
+import importlib.util as _ilu
+_rp = _ilu.spec_from_file_location('realspec', os.path.join(os.path.dirname(os.path.abspath(__file__)), '..', 'real', 'spec.py'))
+_real = _ilu.module_from_spec(_rp); _rp.loader.exec_module(_real)
+HARNESSES += _real.RELOAD_HARNESSES
 EXPLANATION = 'Inductive invariant of incremental saving: persisted projection unchanged since the last save OR dirty; decided per mutator on an arbitrary clean index. Plus stored-index round trip and saveTree.'
-ASSUMPTIONS = ['loadTrees / recoverEndorsements on the three real trees, storage adaptors and crash points inside a batch are outside', 'loadTree / recoverEndorsements (endorsement back-pointers rebuilt from ids) are not covered']
+ASSUMPTIONS = ['loadTrees / recoverEndorsements on the three real trees and the in-memory storage adaptors are decided on the scenario space of h_reload only; crash points inside a batch, the LevelDB/RocksDB adaptors and the progpow header cache warm-up are outside']
